@@ -1,13 +1,25 @@
 #!/bin/bash
-# run_seed.sh <name> [tier]  : apply /verif/seeded/<name>/patch.diff to /repo, run the property's check, undo.
+# run_seed.sh <name> [tier]
+# Apply /verif/seeded/<name>/patch.diff (or a /verif/mutants/*.patch given as path) to a scratch
+# worktree of /repo's HEAD, run the property's check against it (VERIF_REPO), remove the worktree.
+# Evidence and replays of such runs go to a scratch dir, never to /verif/evidence.
 name=$1; tier=${2:-quick}
-dir=/verif/seeded/$name
-prop=$(/venv/bin/python -c "import json;print(json.load(open('$dir/meta.json'))['breaks_property'])")
-cd /repo || exit 2
-[ -z "$(git status --porcelain)" ] || { echo "repo not clean"; exit 2; }
-git apply --3way "$dir/patch.diff" 2>/dev/null || git apply "$dir/patch.diff" || { echo "SEED $name: patch does not apply to /repo"; exit 2; }
-git reset -q
-cd /verif && ./check $prop --tier $tier > /tmp/run_seed_$name.log 2>&1; rc=$?
-cd /repo && git checkout -q -- . && git clean -fdq -e .hypothesis -e .benchmarks >/dev/null
-nviol=$(grep -c "^VIOLATION" /tmp/run_seed_$name.log)
-echo "SEED $name property=$prop tier=$tier exit=$rc violations=$nviol $(grep -a -m1 'signature=' /tmp/run_seed_$name.log | cut -c1-200)"
+if [ -f "$name" ]; then patch=$(readlink -f "$name"); base=$(basename "$name" .patch); prop=${base:0:3}; name=$base
+else dir=/verif/seeded/$name; patch=$dir/patch.diff
+  prop=$(/venv/bin/python -c "import json;print(json.load(open('$dir/meta.json'))['breaks_property'])"); fi
+prop=${3:-$prop}
+wt=/tmp/wt/run_${name}_$$
+git -C /repo worktree add -q --detach $wt HEAD || exit 2
+cd $wt
+if ! git apply "$patch" 2>/dev/null; then
+  git apply --3way "$patch" >/dev/null 2>&1 || { echo "SEED $name: patch does not apply to HEAD"; cd /; git -C /repo worktree remove --force $wt; exit 2; }
+  git reset -q
+fi
+out=/tmp/seedrun_${name}_$$; mkdir -p $out
+cd /verif && VERIF_REPO=$wt VERIF_EVIDENCE_DIR=$out VERIF_REPLAY_DIR=$out/replays ./check $prop --tier $tier > $out/log 2>&1; rc=$?
+nviol=$(grep -c "^VIOLATION" $out/log)
+sigs=$(grep -a 'signature=' $out/log | sed 's/ ::.*//; s/.*signature=//' | sort -u | tr '\n' ' ')
+echo "SEED $name property=$prop tier=$tier exit=$rc violations=$nviol signatures: $sigs"
+[ $rc -eq 3 ] && tail -5 $out/log
+cp $out/log /tmp/seedrun_last_$name.log
+rm -rf $out; cd /; git -C /repo worktree remove --force $wt
